@@ -1302,3 +1302,6 @@ Definition all_shapes_not_covered : list string := map fst (filter (fun nf => ne
 if __name__ == "__main__":
     if len(sys.argv) > 1 and sys.argv[1] == "golden":
         sys.stdout.write(golden_text())
+
+# added with seeded rounds 6-7 (DESIGN 8.6)
+RULE = RULE + '; result-state probe: every writeable array a call returned is overwritten and the call repeated on a fresh receiver with fresh arguments'
